@@ -37,6 +37,9 @@ pub mod threshold;
 /// Miscellaneous functions.
 #[doc(hidden)]
 pub mod util;
+#[cfg(strand_verif)]
+#[doc(hidden)]
+pub mod verif_hooks;
 #[cfg(feature = "wasm")]
 /// Webassembly API.
 pub mod wasm;
